@@ -21,6 +21,19 @@ REWRITES = {
     "director/forward/forward.go": [
         ("net.Dial(", "VerifDial(", 1),
     ],
+    "listener/canary/canary_linux.go": [
+        ("syscall.EpollCreate1(", "VerifSys.EpollCreate1(", 1),
+        ("syscall.EpollCtl(", "VerifSys.EpollCtl(", 1),
+        ("syscall.EpollWait(", "VerifSys.EpollWait(", 1),
+        ("syscall.Socket(", "VerifSys.Socket(", 1),
+        ("syscall.Close(", "VerifSys.Close(", 1),
+        ("syscall.Sendto(", "VerifSys.Sendto(", 1),
+        ("syscall.Recvfrom(", "VerifSys.Recvfrom(", 1),
+        ("syscall.GetsockoptInt(", "VerifSys.GetsockoptInt(", 1),
+        ('"/proc/net/route"', "VerifRoutePath", 1),
+        ('"/proc/net/arp"', "VerifARPPath", 1),
+        ("net.InterfaceByName(", "VerifInterfaceByName(", 1),
+    ],
 }
 # package dir -> seam file (under /verif/seams)
 SEAMS = [
@@ -28,6 +41,7 @@ SEAMS = [
     "services/ftp/zz_verif_seam.go",
     "director/forward/zz_verif_seam.go",
     "services/ipp/zz_verif_seam.go",
+    "listener/canary/zz_verif_seam.go",
 ]
 
 class AnchorError(Exception):
